@@ -159,3 +159,21 @@ func lemma_ClearPresentFrame(p presence, num, m uint32) {
 	ensures(!specBit(p, num))
 	ensures(specBit(p, m) == before)
 }
+
+// ---------------------------------------------------------------- message-level merge: ownership of unknown bytes (C14)
+
+// mergePointer walks run-time tables (function values, maps, lazy fields): all of that is
+// abstracted (modifiesAll; dynamic calls are havocked). What is checked here is the ownership
+// rule for every slice header the function itself stores into a message (the unknown-field
+// bytes of dst): it is empty, freshly allocated by this call, or the previous value extended
+// in place - never a slice taken from src.
+//
+//@ props C14
+//@ mode int
+//@ guard-slice-stores
+//@ nopanic
+//@ inline getUnknownBytes mutableUnknownBytes IsValid
+func contract_MessageInfo_mergePointer(mi *MessageInfo, dst, src pointer, opts mergeOptions) {
+	requires(mi != nil)
+	modifiesAll()
+}
